@@ -6,7 +6,7 @@ from common import *
 
 RULE = ("streams: (M) matcher (select=all, ion_priority) on imbalance vectors over the database's elements and Q in [-2,2] "
         "(thorough: ALL vectors with <=4 atoms; quick: a sample) plus random vectors up to 10 atoms, for both shipped databases and "
-        "their union, ranked lists compared in order; (S) single_impute on side strings; (K) RuleConstraint.fit on generated "
+        "their union, ranked lists compared in order; (S) single_impute on side strings, every imbalance with all three databases one after the other in one process; (K) RuleConstraint.fit on generated "
         "side strings containing the marker substrings; (R) RuleBasedMethod.run on corpus reactions.  Non-trivial: (M) vector with >=1 "
         "solution, (K) entry containing a marker, (R) reaction changed by the stage; distinct = distinct input.")
 ASSUMPTIONS = ["RDKit gives the true composition of a database SMILES (oracle columns of Gen/GenRules.v)",
@@ -159,25 +159,43 @@ def run(ctx):
 
     # ---- stream S
     sides = ["CCO", "CC(=O)O.CN", "c1ccccc1Br", "CCBr.[Na+].[OH-]", "O", "CC[N+](C)(C)C", ""]
-    for _ in range(150 if ctx.quick() else 1500):
+    # every imbalance is solved with all three databases one after the other in the same process (anything remembered about an
+    # imbalance must not leak from one database to the next)
+    for _ in range(60 if ctx.quick() else 500):
         d, q = ctx.rng.choice(vecs + rnd)
         data = dict(d)
         if q:
             data["Q"] = q
         unb = ctx.rng.choice(["Products", "Reactants"])
         r, p = ctx.rng.choice(sides), ctx.rng.choice(sides)
-        entry = {"Diff_formula": dict(data), "Unbalance": unb, "reactants": r, "products": p, "id": "0"}
-        try:
-            out = SyntheticRuleImputer.single_impute(entry, copy.deepcopy(shipped), select="all", ranking="ion_priority")
-            exp = (out["reactants"], out["products"]) if "new_reaction" in out else None
-            if exp and out["new_reaction"] != exp[0] + ">>" + exp[1]:
-                ctx.mismatch("single_impute new_reaction", entry, out, None)
-            e = "(Some %s)" % copt(exp, lambda x: cpair(cstr(x[0]), cstr(x[1])))
-        except (RecursionError, ValueError):
-            e = "None"
-        ctx.evaluations += 1
-        exprs.append("si 0%%nat %s %s %s %s %s" % (cdict(data), cbool(unb == "Products"), cstr(r), cstr(p), e))
-        meta.append(("single_impute", entry, e))
+        order = [0, 1, 2]; ctx.rng.shuffle(order)
+        for dbi in order + [order[0]]:
+            entry = {"Diff_formula": dict(data), "Unbalance": unb, "reactants": r, "products": p, "id": "0"}
+            try:
+                out = SyntheticRuleImputer.single_impute(entry, copy.deepcopy(dbs[dbi]), select="all", ranking="ion_priority")
+                exp = (out["reactants"], out["products"]) if "new_reaction" in out else None
+                if exp and out["new_reaction"] != exp[0] + ">>" + exp[1]:
+                    ctx.mismatch("single_impute new_reaction", entry, out, None)
+                e = "(Some %s)" % copt(exp, lambda x: cpair(cstr(x[0]), cstr(x[1])))
+            except (RecursionError, ValueError):
+                exp, e = None, "None"
+            ctx.evaluations += 1
+            if exp:
+                # property: what was appended are compounds of the database in use, and they sum to the imbalance
+                side_in, side_out = (p, exp[1]) if unb == "Products" else (r, exp[0])
+                added = side_out[len(side_in):].lstrip(".").split(".") if side_out.startswith(side_in) else None
+                smiles_db = {x["smiles"] for x in dbs[dbi]}
+                if added is None or any(a not in smiles_db for a in added):
+                    ctx.fail("completion-uses-compound-outside-database", {"db": dbi, "entry": entry}, {"out": exp, "added": added})
+                else:
+                    tot = collections.Counter()
+                    for a in added:
+                        tot.update(true_comp(a) or {})
+                    want = {k: v for k, v in data.items() if v != 0}
+                    if {k: v for k, v in tot.items() if v != 0} != want:
+                        ctx.fail("completion-does-not-sum", {"db": dbi, "entry": entry}, {"out": exp, "sum": dict(tot)})
+            exprs.append("si %d%%nat %s %s %s %s %s" % (dbi, cdict(data), cbool(unb == "Products"), cstr(r), cstr(p), e))
+            meta.append(("single_impute", {"db": dbi, "entry": entry}, e))
 
     # ---- stream K
     ban = gen_data.observe_ban()
